@@ -4,6 +4,7 @@
 secs="${1:-120}"; seed="${2:-1}"; shift 2
 props="${*:-C03 C04 C05 C11 C14 C20}"
 cd "$(dirname "$0")/.." || exit 2
+[ -n "${VP_RUN_REPO:-}" ] && export VERIF_REPO="$VP_RUN_REPO"
 rc=0
 for p in $props; do
   VERIF_THOROUGH_SECS=$secs VERIF_SEED=$seed bin/check $p thorough 2>&1 | tail -4 | cut -c1-600 || rc=1
